@@ -213,7 +213,40 @@ func LinksObs(doc *ast.QueryDocument) string {
 	return strings.Join(parts, ";")
 }
 
+// EventsObs runs the real walker with one observer per event kind and records `kind@start` of
+// every observer call in order (`directiveList@<len>`).
+func EventsObs(schema *ast.Schema, doc *ast.QueryDocument) string {
+	var out []string
+	st := func(p *ast.Position) string {
+		if p == nil {
+			return "0"
+		}
+		return strconv.Itoa(p.Start)
+	}
+	rule := validator.Rule{Name: "events", RuleFunc: func(o *validator.Events, _ validator.AddErrFunc) {
+		o.OnOperation(func(_ *validator.Walker, x *ast.OperationDefinition) { out = append(out, "operation@"+st(x.Position)) })
+		o.OnField(func(_ *validator.Walker, x *ast.Field) { out = append(out, "field@"+st(x.Position)) })
+		o.OnFragment(func(_ *validator.Walker, x *ast.FragmentDefinition) { out = append(out, "fragment@"+st(x.Position)) })
+		o.OnInlineFragment(func(_ *validator.Walker, x *ast.InlineFragment) { out = append(out, "inlineFragment@"+st(x.Position)) })
+		o.OnFragmentSpread(func(_ *validator.Walker, x *ast.FragmentSpread) { out = append(out, "fragmentSpread@"+st(x.Position)) })
+		o.OnDirective(func(_ *validator.Walker, x *ast.Directive) { out = append(out, "directive@"+st(x.Position)) })
+		o.OnDirectiveList(func(_ *validator.Walker, x []*ast.Directive) { out = append(out, "directiveList@"+strconv.Itoa(len(x))) })
+		o.OnValue(func(_ *validator.Walker, x *ast.Value) { out = append(out, "value@"+st(x.Position)) })
+		o.OnVariable(func(_ *validator.Walker, x *ast.VariableDefinition) { out = append(out, "variable@"+st(x.Position)) })
+	}}
+	validator.Validate(schema, doc, rule)
+	return strings.Join(out, ",")
+}
+
 func init() {
+	// events <hex schema SDL> <hex document>: observer calls of the real walker, in order
+	Ops["events"] = func(a []string) string {
+		schema, doc, e := loadPair(a[0], a[1])
+		if e != "" {
+			return e
+		}
+		return EventsObs(schema, doc)
+	}
 	// validate <rules> <hex schema SDL> <hex document>
 	Ops["validate"] = func(a []string) string {
 		rs, bad := resolveRules(a[0])
@@ -243,8 +276,8 @@ func init() {
 		}
 		return "(" + SexpLoadedSchema(schema) + " " + SexpQuery(doc) + ")"
 	}
-	// vall <rules> <hex schema SDL> <hex document>: `<validate obs> # <links obs> # <valreq>` in one call
-	// (three fresh parses, so the three parts are independent)
+	// vall <rules> <hex schema SDL> <hex document>: `<validate obs> # <links obs> # <events obs> # <valreq>`
+	// in one call (fresh parses, so the parts are independent)
 	Ops["vall"] = func(a []string) string {
 		rs, bad := resolveRules(a[0])
 		if bad != "" {
@@ -260,6 +293,8 @@ func init() {
 		validator.Validate(schema, doc2, []validator.Rule{}...)
 		links := LinksObs(doc2)
 		doc3, _ := parser.ParseQuery(&ast.Source{Input: string(db)})
-		return RunValidate(schema, doc3, rs) + " # " + links + " # " + req
+		doc4, _ := parser.ParseQuery(&ast.Source{Input: string(db)})
+		events := EventsObs(schema, doc4)
+		return RunValidate(schema, doc3, rs) + " # " + links + " # " + events + " # " + req
 	}
 }
